@@ -20,7 +20,11 @@ VERUS_FLAGS = ['--cfg', 'feature="stream"', '--cfg', 'feature="raw_decoder"', '-
                '--no-report-long-running', '--triggers-mode', 'silent']
 
 SAFETY_MSG = re.compile(r'arithmetic underflow/overflow|division by zero|bit shift|termination|decreases|'
-                        r'index out of bounds|unreachable|loop must have a decreases')
+                        r'index out of bounds|index in bounds|unreachable|loop must have a decreases|'
+                        r'precondition not met')
+TOOL_MSG = re.compile(r'not supported|unsupported|does not \(?yet\)? support|cannot find|mismatched types|expected |'
+                      r'no method named|unresolved|cannot call function|is not a member|cyclic|syntax|'
+                      r'found a cyclic|trait bound|type annotations needed|internal error|panicked')
 VERIF_FAIL_MSG = re.compile(r'postcondition not satisfied|precondition not satisfied|assertion failed|'
                             r'invariant not satisfied|assertion not satisfied|'
                             r'arithmetic underflow/overflow|division by zero|bit shift|'
@@ -130,11 +134,14 @@ def classify(diags, linemap, genfile):
         prim = [s for s in d.get('spans', []) if s.get('is_primary')]
         if RLIMIT_MSG.search(msg):
             kind = 'rlimit'
-        elif VERIF_FAIL_MSG.search(msg):
+        elif VERIF_FAIL_MSG.search(msg) or SAFETY_MSG.search(msg):
             kind = 'safety' if SAFETY_MSG.search(msg) else 'functional'
-        else:
+        elif d.get('code') or TOOL_MSG.search(msg):
             tool_errors.append({'msg': msg, 'rendered': d.get('rendered', '')[:1500]})
             continue
+        else:
+            # any other Verus error with a span in the generated file is a failed proof obligation
+            kind = 'functional'
         fn = None
         module = None
         line = None
@@ -157,12 +164,12 @@ def classify(diags, linemap, genfile):
             if md and md.get('kind') in ('spec', 'prelude', 'module_items', 'inimpl', 'intrait') and fn is None:
                 module = md.get('kind')
         for s in spans:
-            ln = s['line_start']
-            md = linemap.get(ln) or linemap.get(str(ln))
-            if md and md.get('obligation'):
-                obligation = md['obligation']
-                clause_props = md.get('clause_props')
-                clause_text = md.get('text')
+            for ln in range(s['line_start'], min(s.get('line_end', s['line_start']), s['line_start'] + 40) + 1):
+                md = linemap.get(ln) or linemap.get(str(ln))
+                if md and md.get('obligation') and md.get('kind') in ('spec', 'loop_inv'):
+                    obligation = md['obligation']
+                    clause_props = md.get('clause_props')
+                    clause_text = md.get('text')
         if pline:
             line = pline
             for s in prim:
